@@ -223,7 +223,9 @@ func EnumPathsSeed(start *ssa.BasicBlock, idx int, limit int, maxVisits int, see
 		visited[b]++
 		defer func() { visited[b]-- }()
 		p.Blocks = append(p.Blocks, b)
-		if from != nil {
+		if from != nil && !isLoopHead(b) {
+			// phis of loop heads stay symbolic: the value entering from outside
+			// the loop is not the value of later iterations
 			pi := -1
 			for k, pr := range b.Preds {
 				if pr == from {
@@ -347,4 +349,32 @@ func (p *Path) NextIter(ph *ssa.Phi) ssa.Value {
 		}
 	}
 	return nil
+}
+
+// isLoopHead: some predecessor of b is dominated by b (a back edge enters b).
+func isLoopHead(b *ssa.BasicBlock) bool {
+	for _, p := range b.Preds {
+		if b.Dominates(p) {
+			return true
+		}
+	}
+	return false
+}
+
+// HoldsRaw is Holds without resolving phis of the operands (for facts about
+// loop-carried variables, which stay symbolic).
+func (p *Path) HoldsRaw(op token.Token, isX func(ssa.Value) bool, isC func(ssa.Value) bool) bool {
+	for _, f := range p.Conds {
+		c, ok := AsCmp(f.Cond, f.Val)
+		if !ok {
+			continue
+		}
+		if c.Op == op && isX(c.X) && isC(c.Y) {
+			return true
+		}
+		if (op == token.EQL || op == token.NEQ) && c.Op == op && isX(c.Y) && isC(c.X) {
+			return true
+		}
+	}
+	return false
 }
